@@ -1,0 +1,6 @@
+//go:build !verif
+
+package snapshot
+
+// verifCrashPoint is a verification hook; a no-op unless built with the "verif" tag.
+func verifCrashPoint(_ string) {}
